@@ -134,7 +134,11 @@ def solve_many(tasks, jobs=None, timeout_s=10, thorough=False, want_model=False)
             order.append(h)
         by_hash[h][1].append(key)
     results = {}
-    work = [(h, by_hash[h][0], timeout_s, thorough, want_model) for h in order]
+    work = []
+    for h in order:
+        keys = by_hash[h][1]
+        is_cover = all(isinstance(k, tuple) and len(k) > 1 and k[1] == 'cover' for k in keys)
+        work.append((h, by_hash[h][0], 2 if is_cover else timeout_s, False if is_cover else thorough, want_model))
     if len(work) <= 1 or jobs == 1:
         outs = [_task(w) for w in work]
     else:
